@@ -515,6 +515,7 @@ class World:
         self.trees, self.rs = trees, rs
         self.tmp = None
         self.sink = []
+        self.sims = {}
         world = self
         person = entities.Entity("person", "persons", "", "")
 
@@ -605,20 +606,31 @@ class World:
             return f"{day.year:04d}-{day.month:02d}"
         if form == 7 and (day.month, day.day) == (1, 1):
             return f"{day.year:04d}"
+        if form == 8 and day.day == 1:                       # a period of several months starting that day
+            return periods.period(f"month:{day.year:04d}-{day.month:02d}:3")
+        if form == 9:                                        # a period of several days starting that day
+            return periods.period(f"day:{iso(d)}:10")
         return iso(d)
 
     def in_formula(self, s: int, traced: bool, d: int, body):
-        """run `body(parameters, period)` inside a formula of a fresh simulation on system s"""
+        """run `body(parameters, period)` inside a formula of a simulation on system s: a fresh one, or the one
+        an earlier read created (possibly before the system's tree was changed), its cached result dropped"""
         from openfisca_core.simulations import SimulationBuilder
-        sim = SimulationBuilder().build_default_simulation(self.systems[s], 1)
-        sim.trace = traced
+        sim = self.sims.get((s, traced)) if self.rs.random() < 0.5 else None
+        if sim is None:
+            sim = SimulationBuilder().build_default_simulation(self.systems[s], 1)
+            sim.trace = traced
+            self.sims[(s, traced)] = sim
+        else:
+            sim.delete_arrays("ofv_probe", iso(d))
+        before = len(sim.tracer.trees) if traced else 0
         box = []
         self.sink.append(lambda parameters, period: box.append(body(parameters, period)))
         try:
             sim.calculate("ofv_probe", iso(d))
         finally:
             self.sink.pop()
-        log = list(sim.tracer.trees[0].parameters) if traced else []
+        log = list(sim.tracer.trees[before].parameters) if traced else []
         return box[0], log
 
     # ---- reads
@@ -1253,9 +1265,9 @@ def fmt_path(p) -> str:
 
 def g_form(rng, d: int) -> int:
     day = D(d)
-    forms = [0, 0, 1, 2]
+    forms = [0, 0, 1, 2, 9]
     if day.day == 1:
-        forms += [3, 6]
+        forms += [3, 6, 8]
         if day.month == 1:
             forms += [4, 5, 7]
     return rng.choice(forms)
@@ -1408,22 +1420,54 @@ def with_nested(rng, edits: str, nested: list) -> str:
 
 
 def gen_history(rng, n_ops=None) -> Case:
-    ntrees = rng.choice([1, 2, 2, 3])
+    ntrees = rng.choice([1, 2, 2, 3])        # the trees a system can be (re)loaded with
     trees = [g_tree(rng) for _ in range(ntrees)]
+    ext = list(range(ntrees, ntrees + rng.choice([0, 0, 1, 1, 2])))      # what extension packages bring
+    trees += [g_ext_tree(rng) for _ in ext]
     init = None if rng.random() < 0.08 else 0
     ref = Ref(init, trees)
     ops: list = []
     hot: list = []
     tags = []
-    n_ops = n_ops or rng.randint(4, 12)
+    n_ops = n_ops or rng.randint(5, 16)
 
     def emit(s: str):
         ops.append(s)
         ref.apply(parse_op(s))
 
     def some_read(s):
+        if rng.random() < 0.07:
+            d = rng.choice(hot) if hot and rng.random() < 0.6 else rng.choice(READ_DATES).toordinal()
+            hot.append(d)
+            t = ref.cur[ref.root(s)]
+            path = [] if t is None or rng.random() < 0.4 else rng.choice(any_paths(t))
+            emit(f"rb:{s}:{g_form(rng, d)}:{d}:{fmt_path(path)}")
+            return
         o = g_vec(rng, ref, s, hot) if rng.random() < 0.35 else None
         emit(o or g_read(rng, ref, s, hot))
+
+    def after_change(s):
+        """second reads after a change: every route of the changed system (and of one that shares its tree
+        object, and of its baseline) at an instant read before"""
+        for sy in {s, rng.choice(ref.sharing(s) or [s]), ref.base[s] if ref.base[s] is not None else s}:
+            if rng.random() < 0.55:
+                d = rng.choice(hot) if hot else rng.choice(READ_DATES).toordinal()
+                t = ref.cur[sy]
+                path = [] if t is None or rng.random() < 0.5 else rng.choice(any_paths(t))
+                emit(f"ra:{sy}:{g_form(rng, d)}:{d}:{fmt_path(path)}")
+            if rng.random() < 0.25:
+                o = g_vec(rng, ref, sy, hot)
+                if o:
+                    emit(o)
+
+    def extend(s):
+        shared = [i for i in range(len(ref.cur)) if len(ref.sharing(i)) > 1]
+        if shared and rng.random() < 0.8:
+            s = rng.choice(shared)               # an object two systems refer to
+        k = rng.choice(ext) if ext and rng.random() < 0.9 else rng.randrange(len(trees))
+        emit(f"ex:{s}:{k}")
+        tags.append("load-extension" + ("-shared-object" if len(ref.sharing(s)) > 1 else ""))
+        after_change(s)
 
     def follow_up(s, keys):
         """read again what the user function read in the middle of the modification, with the same spelling"""
@@ -1440,10 +1484,14 @@ def gen_history(rng, n_ops=None) -> Case:
     def modify(s):
         keys: list = []
         nested = g_nested(rng, ref, s, hot, keys)
-        emit(f"md:{s}:{with_nested(rng, g_edits(rng, ref, s, ntrees, hot), nested)}")
+        e = g_edits(rng, ref, s, ntrees, hot)
+        if e.startswith("c,"):
+            tags.append("add-child")
+        emit(f"md:{s}:{with_nested(rng, e, nested)}")
         if nested:
             tags.append("nested-read-in-modifier")
         follow_up(s, keys)
+        after_change(s)
 
     def reload(s):
         keys: list = []
@@ -1452,16 +1500,20 @@ def gen_history(rng, n_ops=None) -> Case:
         if nested:
             tags.append("nested-read-in-hook")
         follow_up(s, keys)
+        after_change(s)
 
     if init is None:
         emit(g_read(rng, ref, 0, hot))
         emit(f"ld:0:{rng.randrange(ntrees)}")
     while len(ops) < n_ops:
         s = rng.randrange(len(ref.cur))
+        reforms_ = [i for i, b in enumerate(ref.base) if b is not None]
+        if reforms_ and rng.random() < 0.6:
+            s = rng.choice(reforms_)
         r = rng.random()
-        if r < 0.45:
+        if r < 0.35:
             some_read(s)
-        elif r < 0.60:
+        elif r < 0.55:
             some_read(s)                       # read, change, read the same instant again
             if ref.base[s] is not None and rng.random() < 0.6:
                 modify(s)
@@ -1472,11 +1524,14 @@ def gen_history(rng, n_ops=None) -> Case:
             some_read(s)
             if rng.random() < 0.5:
                 some_read(rng.randrange(len(ref.cur)))
-        elif r < 0.80 and len(ref.cur) < 4:
+        elif r < 0.72 and len(ref.cur) < 4:
             b = s
             body_n = rng.choice([0, 1, 2, 3, 3, 4, 5])
             new = len(ref.cur)
+            at = len(ops)
             emit(f"nr:{b}:{body_n}")
+            if ref.base[b] is not None:
+                tags.append("reform-of-reform")
             pattern = rng.choice(["rmr", "rmr", "mr", "mm", "free"])
             body = []
             for j in range(body_n):
@@ -1493,13 +1548,17 @@ def gen_history(rng, n_ops=None) -> Case:
                     modify(new)
                 else:
                     some_read(rng.choice([new, new, b]))
+            if rng.random() < 0.7:
+                ops[at] = f"nr:{b}:{len(ops) - at - 1}"        # everything generated so far runs inside apply()
             tags.append("apply:" + "".join(body))
-        elif r < 0.90 and ref.base[s] is not None:
+        elif r < 0.88 and ref.base[s] is not None:
             modify(s)
             tags.append("modify-outside-apply")
+        elif r < 0.94 and ref.cur[s] is not None:
+            extend(s)
         else:
             reload(s)
-    line = f"pview h {'-' if init is None else init} {';'.join(ops)} {ntrees} " + " ".join(c06.fmt_tree(t) for t in trees)
+    line = f"pview h {'-' if init is None else init} {';'.join(ops)} {len(trees)} " + " ".join(c06.fmt_tree(t) for t in trees)
     kinds = sorted({o.split(':')[0] for o in ops})
     return Case(line=line, payload={"style": rng.getrandbits(30)}, claimed=True,
                 tags=tuple(sorted(set(tags))) + tuple("op:" + k for k in kinds) + (f"systems={len(ref.cur)}",))
@@ -1539,7 +1598,7 @@ MALFORMED = [
 
 
 def generate(rng: random.Random, tier: str):
-    n_hist, n_vec = (3500, 3500) if tier == "quick" else (80000, 80000)
+    n_hist, n_vec = (3000, 2500) if tier == "quick" else (50000, 30000)
     out = [gen_history(rng) for _ in range(n_hist)]
     out += [gen_vector_case(rng) for _ in range(n_vec)]
     out += [Case(line=l, payload={"style": 0}, claimed=False, tags=("malformed",)) for l in MALFORMED]
@@ -1611,6 +1670,23 @@ def corpus():
                              f"ra:1:{form}:{d18}:benefits.basic_income;rv:1:{form}:{d18}:-;ra:0:{form}:{d18}:benefits.basic_income;"
                              f"fx:1:v:{form}:{d18}:benefits:n:basic_income:-;ld:1:1:v,1,{form},{d18},-+a,0,0,{d18},-;ra:1:{form}:{d18}:- 2 {bi} {bi2}",
                         payload={"style": 20 + form}, tags=("corpus", "nested-read")))
+    # a chain of reforms, each with its own modifier, reads on the intermediate reform, the root baseline's view
+    out.append(Case(line=f"pview h 0 ra:0:0:{d18}:-;nr:0:2;md:1:u,benefits.basic_income,{d18},-,700;ra:1:0:{d18}:-;nr:1:2;"
+                         f"md:2:u,taxes.rate,{d18},-,1/2+c,benefits,added,1;ra:2:0:{d18}:-;ra:1:0:{d18}:-;ra:0:0:{d18}:-;rb:2:0:{d18}:-;"
+                         f"md:1:u,taxes.rate,{d18},-,3/4;ra:2:0:{d18}:taxes;ra:1:0:{d18}:taxes;rb:1:1:{d18}:benefits;"
+                         f"ra:2:1:{d18}:benefits.added.benefits.basic_income 2 {bi} {bi2}", payload={"style": 30}, tags=("corpus", "chain")))
+    # load_extension changes the tree object in place: the un-modified reform 1 follows, reform 2 (own tree) does not;
+    # a second load of the same extension stops at the first name and leaves the views on the tree
+    ext = f"N 2 e_x P {d15}:5 e_sub N 1 a P {d15}:6"
+    ext2 = f"N 3 e_y P {d15}:8 taxes P {d15}:9 e_z P {d15}:10"
+    out.append(Case(line=f"pview h 0 nr:0:0;nr:0:1;md:2:u,taxes.rate,{d18},-,1/2;ra:0:0:{d18}:-;ra:1:0:{d18}:-;ra:2:0:{d18}:-;ex:0:1;"
+                         f"ra:0:0:{d18}:-;ra:1:0:{d18}:-;ra:2:0:{d18}:-;ex:1:1;ra:0:0:{d18}:-;ex:0:2;ra:0:0:{d18}:-;ra:1:0:{d18}:e_y;"
+                         f"fx:1:v:0:{d18}:-:n:e_x,e_x:- 3 {bi} {ext} {ext2}", payload={"style": 31}, tags=("corpus", "extension")))
+    # more distinct reads than the memo holds (lru_cache maxsize=128), a change, the oldest and the newest again
+    many = [f"rv:{i % 2}:{i % 3}:{d15 + 7 * i}:benefits.basic_income" for i in range(140)]
+    again = [f"ra:{i % 2}:{i % 3}:{d15 + 7 * i}:benefits.basic_income" for i in (0, 1, 2, 3, 137, 138, 139)]
+    out.append(Case(line=f"pview h 0 nr:0:0;{';'.join(many)};md:1:u,benefits.basic_income,{d15 + 100},-,777;{';'.join(again)};ld:0:1;{';'.join(again)} 2 {bi} {bi2}",
+                    payload={"style": 32}, tags=("corpus", "memo-eviction")))
     # F-C07b: a sub-node by name after a vector index
     housing = (f"N 1 g N 2 z1 N 2 owner N 2 k1 P {d15}:1 k2 P {d15}:2 tenant N 2 k1 P {d15}:3 k2 P {d15}:4 "
                f"z2 N 2 tenant N 2 k2 P {d15}:8 k1 P {d15}:7 owner N 2 k1 P {d15}:5 k2 P {d15}:6")
@@ -1665,7 +1741,7 @@ PROP = Prop(
           "order, plain parameters, a sub-node, sometimes a scale and an inhomogeneous group; children declared in a shuffled order) "
           "either by direct assignment on the fresh system or by load_parameters on a temporary YAML directory (files and "
           "sub-directories), then 4-12 operations: reads through the at-instant view (instant spelled as ISO string, Instant, "
-          "day/month/year Period, int year), through the parameter object (call or get_at_instant), through a formula's "
+          "'YYYY-MM' / 'YYYY' strings, day/month/year Periods, Periods of several days or months, int year), through the parameter object (call or get_at_instant), through a formula's "
           "`parameters` argument of a fresh simulation, untraced and traced (with the tracer's parameter log); real Reform subclasses "
           "whose apply() bodies read before and after modify_parameters (update by period / start+stop / start only, 1-3 updates, "
           "a modifier returning another tree, a modifier returning a non-node; 0-3 reads of the reform's, its baseline's or "
@@ -1673,7 +1749,12 @@ PROP = Prop(
           "the copied tree, in every spelling of the instant, each followed after the modification by the same read with the "
           "same spelling; the same reads made by a preprocess_parameters hook inside load_parameters), modify_parameters called again later, reforms of "
           "reforms, load_parameters on baselines and reforms; reads come back to the same instants ('read, modify, read again'); "
-          "vector reads node[keys] with 1-8 keys as names / Enum members / EnumArray / integers, followed by .name, ['name'] or a "
+          "load_extension of generated packages on baselines and reforms (fresh names, names already present, objects shared by several "
+          "systems), sub-trees added by a modifier with add_child, the root baseline's view (_get_baseline_parameters_at_instant), second "
+          "reads of every route after each change on the changed system, on a system sharing its tree object and on its baseline; formula "
+          "reads on fresh simulations and on simulations created before the change; more distinct reads than the memo holds; "
+          "vector reads node[keys] with 0-8 keys as str / object / bytes arrays, Enum members, EnumArray, integers of every width, "
+          "datetime64 vectors in units D/h/m/s/ms/us/ns/M/Y with and without a time of day, followed by .name, ['name'] or a "
           "second key vector, and node[datetime64 vector] with dates at the after_ boundaries +-1, through all four routes. "
           "A case is non-trivial when it shows at least two distinct values. distinct = distinct protocol lines."),
     assumptions=[
@@ -1682,9 +1763,11 @@ PROP = Prop(
         "floats, exactly representable as float64 (recarray mechanics, numpy.select, broadcasting and datetime64 comparison are modelled, tied by this correspondence)",
         "functools.lru_cache is modelled as a most-recently-used list of at most 128 entries keyed by (system, spelling of the instant, date); "
         "the theorems hold for any capacity",
-        "object identity is erased: the documented routes (Reform.modify_parameters on a deep copy, load_parameters building a new tree) never "
-        "mutate a tree in place; assigning `system.parameters = …` on a system whose view was already read, and in-place edits of a live tree, "
-        "are not documented routes and are not generated; load_extension (third cache_clear site) is not exercised: it needs an importable package",
+        "tree objects have an identity in the model: a reform refers to its baseline's object until one of them replaces its tree "
+        "(Reform.modify_parameters installs a deep copy, load_parameters a new tree); load_extension merges IN PLACE into that object "
+        "(real importable packages are built in a temporary directory; os.listdir is pinned to the declared order for the extension's "
+        "parameters directory, because the merge stops at the first name already present); assigning `system.parameters = …` on a system "
+        "whose view was already read, and in-place edits of a live tree by other means, are not documented routes and are not generated",
         "user code can run in the middle of a modification in two places only: the modifier function of Reform.modify_parameters and the "
         "preprocess_parameters hook of load_parameters (a plain caller cannot interleave a read with load_parameters); both are modelled as "
         "programs that read the process while the former tree is in place (ModProg), and the memo is emptied after the new tree is installed; "
